@@ -1,4 +1,4 @@
-from .checks import deps, pipeline, version, selfhost, container, compilecheck, imports, pattern, grammar, merge, determinism
+from .checks import deps, pipeline, version, selfhost, container, compilecheck, imports, pattern, grammar, merge, determinism, totality
 
 CHECKS = {
     "C01": lambda tier: compilecheck.run("C01", tier),
@@ -13,6 +13,7 @@ CHECKS = {
     "C09": lambda tier: merge.run_c09(tier),
     "C10": lambda tier: pipeline.run_c10(tier),
     "C11": lambda tier: grammar.run_c11(tier),
+    "C12": lambda tier: totality.run_c12(tier),
     "C13": lambda tier: container.run_c13(tier),
     "C14": lambda tier: imports.run_c14(tier),
     "C15": lambda tier: container.run_c15(tier),
